@@ -163,6 +163,15 @@ def _cases(ctx):
         for d1, d2 in ((base, edge[0]), (edge[1 % len(edge)], base), (edge[-1], edge[0])):
             cases.append(["seq", [d1, d2], [[["create", s, None]]]])
             cases.append(["seq", [d1, d2], [[["modify", ["short", "240131"], s]]]])
+    # C3. the machine is not on UTC and the local calendar day is not the UTC calendar day (just
+    # after midnight east of UTC, in the evening west of it): "today" is the local day
+    for zone in ("east-night", "west-evening"):
+        for day in (base, edge[0], edge[-1]):
+            for s in specs:
+                if s[0] == "rel":
+                    cases.append(["zone", zone, ["q", day, None, [[["create", s, None]]], None, None, False, False]])
+                    cases.append(["zone", zone, ["q", day, None, [[["modify", ["short", "240131"], s]]], None, None,
+                                                 False, False]])
     # D. ordering / grouping lists, clause order, omitted clauses
     orders = [None] + [list(o) for n in (1, 2) for o in it.product(ORDER_KEYS, repeat=n)]
     orders.append(list(ORDER_KEYS))
@@ -202,6 +211,16 @@ def _run_case(ctx, case) -> F.Outcome:
     out = F.Outcome()
     if case[0] == "process":
         return _process_case(case[1])
+    if case[0] == "zone":
+        H.set_zone(case[1])
+        try:
+            res = _run_case(ctx, case[2])
+        finally:
+            H.set_zone()
+        if not res.ok:
+            res.detail["zone"] = dict(zip(("hours_east_of_utc", "local_hour", "local_minute"), H.ZONES[case[1]]))
+        res.nontrivial = H.digest(case)
+        return res
     if case[0] == "seq":
         last = None
         for n, d in enumerate(case[1]):
@@ -303,6 +322,8 @@ def _process_case(qtext: str) -> F.Outcome:
 def _sample(case):
     if case[0] == "process":
         return {"cli_query": case[1]}
+    if case[0] == "zone":
+        return dict(_sample(case[2]), zone=case[1])
     if case[0] == "seq":
         return {"query": Q.render_query(None, _t(case[2]), None, None, False, False),
                 "compiled_in_one_process_on": case[1]}
